@@ -159,6 +159,9 @@ func checkC02(c *Check) {
 	idDistinct := relHook(ldID, pLocalID, "!=")
 	asDistinct := relHook(pLocalAS, pRemoteAS, "!=")
 	allOtherOK := hooks(okVersion, okHold, notMulticast, idDistinct)
+	someCaps := rangeHook(func(e *Expr) bool {
+		return e.Op == "len" && e.Args[0].Op == "rcall" && e.Args[0].S == "openMessage.getCapabilities"
+	}, isRange(1, posInf))
 
 	// C02.1 — every faulty OPEN is rejected (accept unreachable under fault)
 	c.runCases("C02.1 faulty-open-rejected", "openMessage.validate", []asmCase{
@@ -181,17 +184,17 @@ func checkC02(c *Check) {
 		{name: "unicast id, different AS => no (2,3)", hook: hooks(notMulticast, asDistinct), forbid: forbidNotif(2, 3)},
 		{name: "unicast id, id != local id => no (2,3)", hook: hooks(notMulticast, idDistinct), forbid: forbidNotif(2, 3)},
 		{name: "2-octet AS matches, capabilities match => no (2,2)", hook: hooks(asnPlainMatch, capValMatch), forbid: forbidNotif(2, 2)},
-		{name: "AS_TRANS with matching capability present => no (2,2)", hook: hooks(asnTrans, allCap65, capLenOK, capValMatch), init: assumeNonEmptyCaps, forbid: forbidNotif(2, 2)},
-		{name: "4-octet-AS capability present => no (2,7)", hook: hooks(allCap65, capLenOK, capValMatch), init: assumeNonEmptyCaps, forbid: forbidNotif(2, 7)},
+		{name: "AS_TRANS with matching capability present => no (2,2)", hook: hooks(asnTrans, allCap65, capLenOK, capValMatch, someCaps), forbid: forbidNotif(2, 2)},
+		{name: "4-octet-AS capability present => no (2,7)", hook: hooks(allCap65, capLenOK, capValMatch, someCaps), forbid: forbidNotif(2, 7)},
 		{name: "AS_TRANS => no (2,7)", hook: asnTrans, forbid: forbidNotif(2, 7)},
 		{name: "capability 65 length 4 => no (2,0)", hook: capLenOK, forbid: forbidNotif(2, 0)},
-		{name: "fully valid OPEN (2-octet AS) => accepted", hook: hooks(allOtherOK, asnPlainMatch, allCap65, capLenOK, capValMatch), init: assumeNonEmptyCaps, forbid: func(rs retSite) string {
+		{name: "fully valid OPEN (2-octet AS) => accepted", hook: hooks(allOtherOK, asnPlainMatch, allCap65, capLenOK, capValMatch, someCaps), forbid: func(rs retSite) string {
 			if !isAccept(rs) {
 				return "a rejecting return is reachable: " + rs.ec.Kind + " " + fmt.Sprint(rs.ec.Notif)
 			}
 			return ""
 		}},
-		{name: "fully valid OPEN (AS_TRANS) => accepted", hook: hooks(allOtherOK, asnTrans, allCap65, capLenOK, capValMatch), init: assumeNonEmptyCaps, forbid: func(rs retSite) string {
+		{name: "fully valid OPEN (AS_TRANS) => accepted", hook: hooks(allOtherOK, asnTrans, allCap65, capLenOK, capValMatch, someCaps), forbid: func(rs retSite) string {
 			if !isAccept(rs) {
 				return "a rejecting return is reachable: " + rs.ec.Kind + " " + fmt.Sprint(rs.ec.Notif)
 			}
@@ -328,7 +331,6 @@ func checkC02(c *Check) {
 	checkC02OpenSent(c)
 }
 
-func assumeNonEmptyCaps(a *Analysis, st *State) {}
 
 func returnOrdinal(fn *ssa.Function, r *ssa.Return) int {
 	n := 0
